@@ -11,7 +11,12 @@ use std::process::{Child, ChildStdin, ChildStdout, Command, Stdio};
 use std::sync::{mpsc, Arc, Mutex};
 use std::time::{Duration, Instant};
 
-pub const VERIF_DIR: &str = "/verif";
+/// Root of the verification tree: where known findings are read and evidence
+/// and replay files are written. `bin/check` sets VERIF_HOME to its own tree
+/// (a `vp run` snapshot keeps its output to itself); default /verif.
+pub fn verif_dir() -> String {
+    std::env::var("VERIF_HOME").unwrap_or_else(|_| "/verif".to_string())
+}
 
 pub struct Proc {
     child: Child,
@@ -187,7 +192,7 @@ pub struct Known {
 }
 
 pub fn load_known() -> Vec<Known> {
-    let path = format!("{VERIF_DIR}/known_findings.txt");
+    let path = format!("{}/known_findings.txt", verif_dir());
     let text = std::fs::read_to_string(path).unwrap_or_default();
     let mut out = vec![];
     for line in text.lines() {
@@ -507,7 +512,7 @@ pub fn write_replay(
     case: &Value,
 ) -> PathBuf {
     let name = format!("{}-{}-{:016x}.json", scenario, sanitize(&v.class), seed);
-    let path = Path::new(VERIF_DIR).join(dir).join(name);
+    let path = Path::new(&verif_dir()).join(dir).join(name);
     let body = json!({
         "property": property,
         "scenario": scenario,
@@ -592,7 +597,7 @@ pub fn check(property: &str, tier: Tier, base_seed: u64) -> i32 {
         let Some(sc) = scenarios::get(&k.scenario) else {
             continue;
         };
-        let path = Path::new(VERIF_DIR).join(&k.replay);
+        let path = Path::new(&verif_dir()).join(&k.replay);
         let reproduced = match std::fs::read_to_string(&path) {
             Ok(text) => {
                 let v: Value = serde_json::from_str(&text).unwrap_or(Value::Null);
@@ -814,8 +819,8 @@ pub fn check(property: &str, tier: Tier, base_seed: u64) -> i32 {
         "wall_s": t0.elapsed().as_secs_f64(),
         "violations": new_violations,
     });
-    let epath = format!("{VERIF_DIR}/evidence/{property}.json");
-    std::fs::create_dir_all(format!("{VERIF_DIR}/evidence")).ok();
+    let epath = format!("{}/evidence/{property}.json", verif_dir());
+    std::fs::create_dir_all(format!("{}/evidence", verif_dir())).ok();
     std::fs::write(&epath, serde_json::to_string_pretty(&evidence).unwrap()).expect("evidence");
     println!(
         "property={} tier={:?} runs={} distinct_nontrivial={} violations={} known_hits={} wall={:.1}s",
@@ -886,7 +891,7 @@ pub fn selftest(tier: Tier, base_seed: u64) -> i32 {
         }
     }
     std::env::remove_var("VERIF_WORKERS");
-    let path = format!("{VERIF_DIR}/evidence/selftest.json");
+    let path = format!("{}/evidence/selftest.json", verif_dir());
     let _ = std::fs::write(&path, serde_json::to_string_pretty(&json!({"tier": format!("{tier:?}"), "seed": base_seed, "scenarios": report})).unwrap());
     if bad > 0 {
         eprintln!("HARNESS ERROR: {bad} scenario(s) are not deterministic");
